@@ -20,7 +20,7 @@ def toD : Arr → LVal → DVal
   | .prim ty _ _, .float x => primAny ty x
   | .time ty _ _ _, .int x => timeAny ty x
   | .timestamp _ _ _ _, .int x => .int .i64 x
-  | .decimal128 _ _ _ _, .int x => .codec x
+  | .decimal128 _ s _ _, .int x => .str .transient (decimalRepr s x)
   | .dictionary _ _, .str b => .str .borrowed b
   | _, .str b => .str .borrowed b
   | _, .bin b => .bytes .borrowed b
@@ -65,11 +65,24 @@ def utf8OkEntries : LEntries → Bool
   | .cons k v r => utf8Ok k && utf8Ok v && utf8OkEntries r
 end
 
-/-! ### value-level meaning of typed reads (`cast`), for the shapes where it is unambiguous
+/-! ### value-level meaning of typed reads (`cast`): the leaf table
 
-`none`: this (target, column) pair has no value-level reading here (not supported by the reader, or a
-conversion modelled elsewhere); `some (.error _)`: the value is not representable in the target ⇒ the read must
-fail (C05: exact or error); `some (.ok d)`: the read must return `d`. -/
+`castLeaf t a lv` for a scalar target `t`, a column `a` and the non-null logical value `lv` of one of its slots:
+`some (.ok d)`: the read must return `d`; `some (.error _)`: the read must fail — the value is not representable in the
+target (C05: exact or error), the codec refuses it (a date outside chrono's range, a time of day ≥ 24 h), or the reader
+does not offer this (target, column) pair at all (`unsupported`).  The table is TOTAL: it never answers `none`
+(`castLeaf_isSome`), so no supported pair is left without a claim.
+
+Rows: booleans; integers by VALUE into any integer width (also Date32 / Date64 / Time32 / Time64 / Duration /
+Timestamp into the widths the reader offers), integers as `char`; floats: exact widenings f16 → f32 → f64 and the
+documented lossy narrowing f64 → f32 (`f64ToF32`: IEEE round-to-nearest-even on bit patterns); strings of Utf8 /
+LargeUtf8 / Utf8View AND Dictionary columns as `String`, borrowed `&str`; strings as `ByteBuf` (not from a dictionary:
+the reader has no `deserialize_byte_buf` there); binary as `&[u8]` / `ByteBuf`; temporal and decimal columns as TEXT:
+`String` and `ByteBuf` (Date / Time / Timestamp / Duration), `String` (Decimal128) through the codec functions of C14 /
+C15 (`dateRepr`, `timeRepr`, `timestampRepr`, `durationRepr`, `decimalRepr`) — the borrowed targets `&str` / `&[u8]`
+must fail there, the text is created on the fly. -/
+
+def unsupported {α} : R α := fail "unsupported (target, column) pair"
 
 def castLeaf (t : Target) (a : Arr) (lv : LVal) : Option (R DVal) :=
   match t, a, lv with
@@ -77,33 +90,46 @@ def castLeaf (t : Target) (a : Arr) (lv : LVal) : Option (R DVal) :=
   | .int ty, .boolean _ _ _, .bool b => some (.ok (.int ty (if b then 1 else 0)))
   | .bool, .prim ty _ _, .int x =>
     if isIntPrim ty then (if x == 0 then some (.ok (.bool false)) else if x == 1 then some (.ok (.bool true)) else some (fail "not a bool"))
-    else none
+    else some unsupported
   | .int ty, .prim pty _ _, .int x =>
     if isIntPrim pty || ((pty == .date32 || pty == .date64) && (ty == .i32 || ty == .i64)) then
       (if ty.inRange x then some (.ok (.int ty x)) else some (fail "out of range"))
-    else none
+    else some unsupported
   | .char, .prim ty _ _, .int x =>
     if isIntPrim ty then
       (if IntTy.u32.inRange x && isScalarValue x.toNat then some (.ok (.char x.toNat)) else some (fail "not a char"))
-    else none
+    else some unsupported
   | .f32, .prim .float32 _ _, .float x => some (.ok (.f32 x))
   | .f32, .prim .float16 _ _, .float x => some (.ok (.f32 (f16ToF32 x)))
+  | .f32, .prim .float64 _ _, .float x => some (.ok (.f32 (f64ToF32 x)))
   | .f64, .prim .float64 _ _, .float x => some (.ok (.f64 x))
   | .f64, .prim .float32 _ _, .float x => some (.ok (.f64 (f32ToF64 x)))
   | .f64, .prim .float16 _ _, .float x => some (.ok (.f64 (f32ToF64 (f16ToF32 x))))
   | .int ty, .time tty _ _ _, .int x =>
     if (tty == .duration && ty == .i64) || (tty != .duration && (ty == .i32 || ty == .i64)) then
       (if ty.inRange x then some (.ok (.int ty x)) else some (fail "out of range"))
-    else none
+    else some unsupported
   | .int .i64, .timestamp _ _ _ _, .int x =>
     (if IntTy.i64.inRange x then some (.ok (.int .i64 x)) else some (fail "out of range"))
+  -- temporal / decimal columns as text
+  | .string, .prim .date32 _ _, .int x => some ((dateRepr .date32 x).map (.str .owned))
+  | .string, .prim .date64 _ _, .int x => some ((dateRepr .date64 x).map (.str .owned))
+  | .byteBuf, .prim .date32 _ _, .int x => some ((dateRepr .date32 x).map (.bytes .owned))
+  | .byteBuf, .prim .date64 _ _, .int x => some ((dateRepr .date64 x).map (.bytes .owned))
+  | .string, .time tty u _ _, .int x =>
+    if tty == .duration then some (.ok (.str .owned (durationRepr u x))) else some ((timeRepr u x).map (.str .owned))
+  | .byteBuf, .time tty u _ _, .int x =>
+    if tty == .duration then some (.ok (.bytes .owned (durationRepr u x))) else some ((timeRepr u x).map (.bytes .owned))
+  | .string, .timestamp u tz _ _, .int x => some ((timestampRepr u tz x).map (.str .owned))
+  | .byteBuf, .timestamp u tz _ _, .int x => some ((timestampRepr u tz x).map (.bytes .owned))
+  | .string, .decimal128 _ s _ _, .int x => some (.ok (.str .owned (decimalRepr s x)))
+  -- strings and binary
   | .string, _, .str b => some (.ok (.str .owned b))
-  | .str, .dictionary _ _, .str _ => none
   | .str, _, .str b => some (.ok (.str .borrowed b))
-  | .byteBuf, .dictionary _ _, .str _ => none
+  | .byteBuf, .dictionary _ _, .str _ => some unsupported
   | .byteBuf, _, .str b => some (.ok (.bytes .owned b))
   | .bytes, _, .bin b => some (.ok (.bytes .borrowed b))
   | .byteBuf, _, .bin b => some (.ok (.bytes .owned b))
-  | _, _, _ => none
+  | _, _, _ => some unsupported
 
 end SaModel.Read
